@@ -51,6 +51,7 @@ COMPONENTS = {
 }
 PROBES = {"pack_between_writes": 1, "handle_switch_after_write": 1,
           "df_conflict_refused": 1, "stale_lock_refused": 1,
+          "empty_dirs_at_ref_path": 1,
           "loose_over_packed": 1}
 MIN_BUDGET = 300
 
@@ -152,6 +153,11 @@ def gen_plan(seed, tier):
                         "name": rng.choice([A, B, T, "packed-refs", HEAD]),
                         "then": rng.choice(["set", "cas", "rm", "pack",
                                             "symref"]), "new": fresh()})
+        elif r < 0.765 and backend == "files":
+            # empty directories left where a ref may be created later (a
+            # crashed writer, another tool): they hold no ref
+            ops.append({"k": "stale_dirs", "name": rng.choice([A, B, T]),
+                        "sub": rng.choice(["x", "x/y", "x/y/z"])})
         elif r < 0.79:
             ops.append({"k": "import", "base": "refs/remotes/o",
                         "refs": {rng.choice(["m", "n", "p"]): fresh()
@@ -355,6 +361,14 @@ def run_plan(plan):
                 return
             if k == "stale_lock":
                 _stale(op, c, m, desc)
+                return
+            if k == "stale_dirs":
+                nm = op["name"]
+                pth = os.path.join(gitdir, nm)
+                if nm not in m.d and not R.lexists(pth) and not any(
+                        q.startswith(nm + "/") for q in m.d):
+                    R.makedirs(os.path.join(pth, op["sub"]))
+                    stats["probe:empty_dirs_at_ref_path"] = 1
                 return
             if k == "badname":
                 try:
